@@ -188,6 +188,8 @@ class Server:
         if env:
             e.update(env)
         self.id = 0
+        self.timeout = 5.0       # default time limit of one call (histories raise it: a loaded machine must not look like a hang)
+        self.timeouts = 0
         for attempt in range(3):
             self.port = free_port()
             cmd = [SERVER_BIN, "-p", str(self.port), "-d", dictionary]
@@ -237,9 +239,10 @@ class Server:
                 time.sleep(0.02)
         return False
 
-    def call(self, method, params, timeout=5.0):
+    def call(self, method, params, timeout=None):
         """returns ('ok', result) | ('error', err) | ('timeout', None) | ('closed', msg)"""
         self.id += 1
+        timeout = self.timeout if timeout is None else timeout
         body = json.dumps({"jsonrpc": "2.0", "id": self.id, "method": method, "params": params}, ensure_ascii=False).encode("utf-8")
         try:
             c = http.client.HTTPConnection("127.0.0.1", self.port, timeout=timeout)
@@ -248,6 +251,7 @@ class Server:
             data = r.read()
             c.close()
         except socket.timeout:
+            self.timeouts += 1
             return ("timeout", None)
         except (OSError, http.client.HTTPException) as e:
             return ("closed", str(e))
